@@ -77,6 +77,7 @@ theorem step_w (s : Session) (op : ROp) :
   | keep q => simp only [Session.step]; cases s.w.obj.compute q <;> rfl
   | hole => rfl
   | ask i sel => simp only [Session.step]; cases s.kept[i]? <;> rfl
+  | callerWrite => rfl
 
 /-- `keep`, `ask` leave every graph object as it is, and the other steps do what they do without them -/
 theorem run_w (ops : List ROp) : ∀ s : Session,
@@ -105,6 +106,10 @@ theorem run_w (ops : List ROp) : ∀ s : Session,
       simp only at hw
       simp only [Session.run, baseOps, pickBase]
       rw [h1, h2, hw]; exact ⟨rfl, rfl⟩
+    | callerWrite =>
+      simp only at hw
+      simp only [Session.run, baseOps, pickBase]
+      rw [h1, h2, hw]; exact ⟨rfl, rfl⟩
 
 /-- no step changes or removes a result the client already holds -/
 theorem step_kept (s : Session) (op : ROp) (i : Nat) (kp : Kept) (h : s.kept[i]? = some kp) :
@@ -124,6 +129,7 @@ theorem step_kept (s : Session) (op : ROp) (i : Nat) (kp : Kept) (h : s.kept[i]?
   | hole =>
     simp only [Session.step, Array.getElem?_push_lt hi]; rw [← Array.getElem?_eq_getElem hi]; exact h
   | ask j sel => simp only [Session.step]; cases s.kept[j]? <;> exact h
+  | callerWrite => exact h
 
 theorem run_length (ops : List ROp) : ∀ s : Session, (s.run ops).2.length = ops.length := by
   induction ops with
